@@ -1,15 +1,19 @@
 #!/bin/bash
 # usage: tools/seed_regress.sh [ids...]   — applies each seeded change to a scratch copy of /repo HEAD and runs the property's check on it
-# (VP_REPO/VP_GEN keep /repo and /verif/gen untouched, so this can run next to other work)
+# (VP_REPO/VP_GEN keep /repo and /verif/gen untouched, so this can run next to other work); JOBS=n runs n seeds side by side
 cd /verif
 IDS="$@"; [ -z "$IDS" ] && IDS=$(ls seeded)
-for id in $IDS; do
+one() {
+  id=$1; slot=$2
   P=${id%-*}
   D=$(mktemp -d /tmp/seedreg.XXXXXX)
   (cd /repo && git archive HEAD) | tar xf - -C $D
-  if ! (cd $D && patch -p1 -s --dry-run < /verif/seeded/$id/patch.diff >/dev/null 2>&1); then echo "$id: patch no longer applies (code changed by a fix)"; rm -rf $D; continue; fi
+  if ! (cd $D && patch -p1 -s --dry-run < /verif/seeded/$id/patch.diff >/dev/null 2>&1); then echo "$id: patch no longer applies (code changed by a fix)"; rm -rf $D; return; fi
   (cd $D && patch -p1 -s < /verif/seeded/$id/patch.diff)
-  VP_REPO=$D VP_GEN=$D/.gen VP_EVIDENCE=$D/.ev ./check $P > $D/.out 2>&1; E=$?
-  echo "$id: exit=$E $(grep -c VIOLATION $D/.out) violations; $(grep -m1 -E 'obligation|UNDECIDED' $D/.out | cut -c1-160)"
+  VP_STANDIN_TARGET=/tmp/wt/sdt_$slot VP_REPO=$D VP_GEN=$D/.gen VP_EVIDENCE=$D/.ev ./check $P > $D/.out 2>&1; E=$?
+  echo "$id: exit=$E $(grep -c VIOLATION $D/.out) violations; $(grep -E 'obligation|UNDECIDED' $D/.out | cut -c1-150 | head -4 | tr '\n' '|')"
   rm -rf $D
-done
+}
+export -f one
+J=${JOBS:-4}
+echo $IDS | tr ' ' '\n' | awk -v j=$J '{print $0, NR % j}' | xargs -P $J -L 1 bash -c 'one $0 $1'
